@@ -142,5 +142,8 @@ class MetaRunner(object):
             await runner.aclose()
         # wait until runners are closed
         await asyncio.gather(*runner_tasks, return_exceptions=True)
+        # no longer running *before* the runners disappear: a concurrent registration
+        # that finds no runner must queue its payload instead of raising
+        self.running.clear()
         self._runners.clear()
         point("mr.aclose.end")
